@@ -407,3 +407,34 @@ def rule_tm5(ctx: Ctx) -> RuleResult:
     r.ob(grew, lambda: Finding("TM-5", "%s{growth}" % spec.qualname, spec.module.where(spec.fn), "the join tables are never grown when a key is created"))
     r.require_instances(1)
     return r
+
+CONNECT_OWNERS = {
+    "rxsci/operators/tee_map.py": "the join connects the published source once, after its last branch has subscribed",
+    "rxsci/mux/muxconnectable.py": "the proxy hands connect() through to the connectable it wraps",
+    "rxsci/data/train_test_split.py": "connects the connectable it published itself for its two outputs",
+}
+
+
+def rule_tm6(ctx: Ctx) -> RuleResult:
+    """TM-6 (who may connect): tee_map shares its source with its branches through a published connectable and connects it once every
+    branch has subscribed.  A stage of a branch that calls connect() on the source it is given starts the source while later
+    branches are not subscribed yet: they see an empty (already completed) stream, and the join is no longer the join of the
+    branches' own outputs."""
+    r = RuleResult("TM-6", "connect() is called only by the owners of a connectable (tee_map's join, the mux connectable proxy, train_test_split): no "
+                           "operator connects a source it was handed")
+    prog = ctx.program
+    for rel, m in sorted(prog.by_relpath.items()):
+        if not rel.startswith("rxsci/"):
+            continue
+        for n in ast.walk(m.tree):
+            if isinstance(n, ast.Call) and isinstance(n.func, ast.Attribute) and n.func.attr == "connect":
+                r.instances += 1
+                fn = m.enclosing_function(n)
+                qn = m.scopes[fn].qualname if fn in m.scopes else "<module>"
+                r.ob(rel in CONNECT_OWNERS, lambda n=n, qn=qn, rel=rel: Finding(
+                    "TM-6", "%s::%s{connect}" % (rel, qn), m.where(n),
+                    "'%s' connects a connectable in %s, which does not own one: under tee_map the source handed to a branch is the shared published "
+                    "source, and connecting it from inside a branch starts it before the later branches have subscribed (they receive nothing)" % (
+                        ast.unparse(n)[:60], qn)))
+    r.require_instances(3)
+    return r
